@@ -117,7 +117,13 @@ def run(run: common.Run):
                 continue
             if m.split()[0] != str(got):
                 run.disagree(case, line, m, str(got))
-    orientation_table(run)
+    cross_crs(run)
+    try:
+        orientation_table(run)
+    except Exception as ex:  # the stub datasets no longer satisfy what same_orientation_crs asks of a dataset
+        import traceback
+        run.disagree(dict(i=10**6), '(orientation table)', 'n/a', traceback.format_exc()[-800:],
+                     what='same_orientation_crs could not be driven through the stub datasets')
 
 
 class _StubIm:
@@ -157,3 +163,83 @@ def orientation_table(run):
         utils.WarpedVRT = orig
     run.compare_lines(cases, lines, impls)
     run.hist['orientation-table rows'] = len(lines)
+
+
+def cross_crs(run):
+    """
+    Source and reference in different coordinate systems - EPSG/EPSG (neighbouring UTM zones), two custom transverse
+    Mercator systems without EPSG codes (central meridians 25 / 27 and 25 / 25.1), EPSG vs custom: a small source placed,
+    by transforming a point of the reference, well inside the reference or straddling one of its four edges.  Not modelled
+    (the re-projection is PROJ's); the property's predicate is evaluated on the real constructors with the footprint
+    relation decided by rasterio.warp.transform_bounds with a margin of several pixels.
+    """
+    import warnings
+    import numpy as np
+    import rasterio as rio
+    from rasterio.crs import CRS
+    from rasterio.transform import Affine
+    from rasterio.warp import transform, transform_bounds
+    from homonim import RasterFuse, RasterCompare
+    from homonim.errors import ImageContentError
+    tmp = run.tmpdir()
+    def tm(lon0):
+        return CRS.from_proj4(f'+proj=tmerc +lat_0=0 +lon_0={lon0} +k=1 +x_0=0 +y_0=0 +ellps=WGS84 +units=m +no_defs')
+    pairs = [('utm34s/utm35s', CRS.from_epsg(32734), CRS.from_epsg(32735), (300_000.0, 6_200_000.0)),
+             ('tmerc27/tmerc25', tm(27), tm(25), (150_000.0, -3_700_000.0)),
+             ('tmerc25.1/tmerc25', tm(25.1), tm(25), (20_000.0, -3_700_000.0)),
+             ('utm35s/tmerc25', CRS.from_epsg(32735), tm(25), (150_000.0, -3_700_000.0)),
+             ('tmerc27/utm35s', tm(27), CRS.from_epsg(32735), (500_000.0, 6_250_000.0))]
+    k = 0
+    for name, scrs, rcrs, (rx0, rytop) in pairs:
+        rres, rw, rh = 10.0, 400, 400
+        rt = Affine(rres, 0, rx0, 0, -rres, rytop)
+        rb = (rx0, rytop - rh * rres, rx0 + rw * rres, rytop)
+        rp = tmp / 'c16x_r.tif'
+        with rio.open(rp, 'w', driver='GTiff', width=rw, height=rh, count=1, dtype='float32', crs=rcrs, transform=rt,
+                      nodata=float('nan')) as ds:
+            ds.write(np.ones((1, rh, rw), dtype='float32'))
+        cx, cy = (rb[0] + rb[2]) / 2, (rb[1] + rb[3]) / 2
+        for place, (px, py) in (('inside', (cx, cy)), ('inside-offset', (cx + 1200.0, cy - 900.0)), ('left', (rb[0], cy)),
+                                ('right', (rb[2], cy)), ('top', (cx, rb[3])), ('bottom', (cx, rb[1])),
+                                ('far-right', (rb[2] + 30_000.0, cy))):
+            for sres in (5.0, 20.0):
+                k += 1
+                rng = run.rng(f'xcrs{k}')
+                (sx,), (sy,) = transform(rcrs, scrs, [px], [py])
+                sw, sh = rng.randint(16, 24), rng.randint(16, 24)
+                sx0, sy0 = round(sx - sw * sres / 2, 1), round(sy + sh * sres / 2, 1)
+                st = Affine(sres, 0, sx0, 0, -sres, sy0)
+                sp = tmp / 'c16x_s.tif'
+                with rio.open(sp, 'w', driver='GTiff', width=sw, height=sh, count=1, dtype='float32', crs=scrs, transform=st,
+                              nodata=float('nan')) as ds:
+                    ds.write(np.ones((1, sh, sw), dtype='float32'))
+                l, b, r_, t = transform_bounds(scrs, rcrs, sx0, sy0 - sh * sres, sx0 + sw * sres, sy0, densify_pts=21)
+                m = 3 * rres
+                inside = l >= rb[0] + m and r_ <= rb[2] - m and b >= rb[1] + m and t <= rb[3] - m
+                over = l < rb[0] - m or r_ > rb[2] + m or b < rb[1] - m or t > rb[3] + m
+                if inside == over:
+                    continue  # too close to an edge to call
+                cls = RasterFuse if k % 2 else RasterCompare
+                case = dict(i=800_000 + k, op='cross-crs', crs=name, placement=place, src_res=sres, cls=cls.__name__)
+                try:
+                    with warnings.catch_warnings():
+                        warnings.simplefilter('ignore')
+                        cls(sp, rp)
+                    got = 1
+                except ImageContentError:
+                    got = 0
+                except Exception as ex:
+                    got = f'other:{type(ex).__name__}:{str(ex)[:60]}'
+                run.evaluations += 1
+                run.hist[f'cross-CRS {name}'] += 1
+                run.nontrivial.add(('xcrs', name, place, sres))
+                if got != (1 if inside else 0):
+                    # does the source lie inside the *bounding box* of the reference re-projected into the source CRS?
+                    # (that box is what the code tests against; it is larger than the reference footprint - finding D15)
+                    wl, wb, wr, wt = transform_bounds(rcrs, scrs, *rb, densify_pts=21)
+                    in_box = wl <= sx0 and sx0 + sw * sres <= wr and wb <= sy0 - sh * sres and sy0 <= wt
+                    what = (f'source overhanging the reference ({place}) in another CRS ({name}) was accepted' if got == 1 else
+                            f'source contained in the reference ({place}) in another CRS ({name}) was rejected' if got == 0 else
+                            f'construction raised {got}')
+                    run.fail(case, what, signature=dict(kind='cross-crs-accepted' if got == 1 else 'cross-crs', crs=name,
+                                                        in_reprojected_bbox=bool(in_box)))
